@@ -473,10 +473,10 @@ func (c *Ctx) checkLogConversions(fi *load.FuncInfo, sites []fieldWriteSite, enc
 				if fn == nil {
 					continue
 				}
-				if encode && fn.Name() == "New" && strings.HasSuffix(fn.Pkg().Path(), "timestamppb") {
+				if encode && fname(fn) == "New" && strings.HasSuffix(fn.Pkg().Path(), "timestamppb") {
 					ok = true
 				}
-				if !encode && fn.Name() == "AsTime" {
+				if !encode && fname(fn) == "AsTime" {
 					ok = true
 				}
 			}
@@ -503,7 +503,7 @@ func (c *Ctx) c18Framing(pbLog, pbMsg *types.Named) {
 			if fn == nil || fn.Pkg() == nil || !strings.HasSuffix(fn.Pkg().Path(), "protobuf/proto") {
 				continue
 			}
-			switch fn.Name() {
+			switch fname(fn) {
 			case "Marshal":
 				if len(call.Args) != 1 {
 					continue
